@@ -243,6 +243,9 @@ class Importance(CellModifierInput):
             for particle in self:
                 if particle in particles_printed:
                     continue
+                # like the data block: only the particles of the problem have an importance
+                if self._problem and particle not in self._problem.mode:
+                    continue
                 other_particles = self._particle_importances[particle][
                     "classifier"
                 ].particles
